@@ -76,6 +76,13 @@ def rule_seedrow(ctx):
                 if t is not None and t[0] == "cell":
                     st = [s for s in evs if s.kind == "store" and s.arr.name == t[1] and len(s.idx) == 1 and s.idx[0].lin == Lin.term(lp.varterm)]
                     okk = bool(st) and (hash_site(w, evs, st[-1].value, e) is not None or helper_column(F, w, evs, st[-1].value, lp, k) is True)
+                    if not st:
+                        # the bucket array filled by an earlier pass over the same rows (rules_arith.two_pass_fill)
+                        from .rules_arith import two_pass_fill
+                        tp_ = two_pass_fill(w, t, lp, evs)
+                        if tp_ is not None:
+                            flp, fst, fevs = tp_
+                            okk = hash_site(w, fevs, fst.value, fst) is not None or helper_column(F, w, fevs, fst.value, flp, k) is True
                 else:
                     okk = hash_site(w, evs, col, e) is not None or helper_column(F, w, evs, col, lp, k) is True
             res.append((bool(okk), "table cell is [row, this row's hash column]" if okk else "table access is not [row, hash(key,row) % width]", fact_strs(e)))
